@@ -59,7 +59,7 @@ var cfgs = map[string]propCfg{
 	"C04": {
 		fields:  set("etag", "checksum"),
 		profile: vmodel.GeneralProfile,
-		stacksQ: []string{"sql", "fs"}, stacksT: []string{"sql", "fs", "zstd>fs", "named"},
+		stacksQ: []string{"sql", "fs", "ecbig"}, stacksT: []string{"sql", "fs", "zstd>fs", "named", "ecbig", "ec32"},
 		histQ: 3, histT: 12, stepsQ: 80, stepsT: 300, versions: true,
 		rule: "C01 histories with every returned/read ETag and x-amz-checksum value compared to independent recomputation (stdlib MD5/CRC32/CRC32C/CRC64NVME/SHA1/SHA256 over the model's bytes and part boundaries; MD5-of-part-MD5s-N for multipart/appended; FULL_OBJECT CRCs over the concatenation), wrong supplied checksums must fail with BadDigest; plus a dedicated generator of multipart part splittings (see counters). distinct = distinct (op kind x size class x part count) tuples",
 	},
@@ -204,6 +204,9 @@ func runModelProp(prop, tier, replay string) {
 		}
 		if prop == "C04" {
 			partSplittings(ctx, r, s, stack, base.Fork("splits/"+stack))
+		}
+		if prop == "C11" && only < 0 {
+			metaReuseScripts(ctx, r, s, stack, base.Fork("meta-scripts/"+stack), cfg)
 		}
 		if (prop == "C02" || prop == "C13") && (only < 0 || onlyLadder >= 0) {
 			promotionLadders(ctx, r, prop, s, stack, base.Fork("ladders/"+stack), cfg, onlyLadder)
